@@ -38,17 +38,17 @@ enum TokPos {
     /// Position of a cursor inside a multiline token
     MultilineContent {
         /// Byte distance of the cursor from the next line break
-        reverse_col: u16,
+        reverse_col: u32,
         /// The number of line breaks between the cursor and the end of the token content
-        newlines_after_cursor: u16,
+        newlines_after_cursor: u32,
     },
 
     /// Position of a cursor in the whitespace before a token
     Whitespace {
         /// Column of the cursor (in bytes), measured from the previous line break
-        col: u16,
+        col: u32,
         /// The number of line breaks between the cursor and the subsequent token
-        newlines_after_cursor: u16,
+        newlines_after_cursor: u32,
     },
 }
 
@@ -142,10 +142,10 @@ impl LogicalLinesReconstructor for DelphiLogicalLinesReconstructor {
                             .map(|line| line.len())
                             .unwrap_or(content_after_cursor.len());
                         let newlines_after_cursor =
-                            (content_after_cursor.split('\n').count() - 1) as u16;
+                            (content_after_cursor.split('\n').count() - 1) as u32;
 
                         TokPos::MultilineContent {
-                            reverse_col: reverse_col as u16,
+                            reverse_col: reverse_col as u32,
                             newlines_after_cursor,
                         }
                     } else {
@@ -159,7 +159,7 @@ impl LogicalLinesReconstructor for DelphiLogicalLinesReconstructor {
                         &leading_ws.split_at(
                             (leading_ws.len() as u64).saturating_add_signed(tok_pos) as usize,
                         );
-                    let newlines_after_cursor = (ws_after_cursor.split('\n').count() - 1) as u16;
+                    let newlines_after_cursor = (ws_after_cursor.split('\n').count() - 1) as u32;
 
                     let col = if let Some(pos) = ws_before_cursor.rfind('\n') {
                         ws_before_cursor.len() - 1 - pos
@@ -169,7 +169,7 @@ impl LogicalLinesReconstructor for DelphiLogicalLinesReconstructor {
                     };
 
                     TokPos::Whitespace {
-                        col: col as u16,
+                        col: col as u32,
                         newlines_after_cursor,
                     }
                 };
@@ -377,7 +377,7 @@ impl CursorTracker for CursorTrackerImpl<'_> {
                 } => {
                     let lines = tok.get_content().rsplit('\n');
                     let offset_from_end = lines
-                        .take(newlines_after_cursor.into())
+                        .take(newlines_after_cursor as usize)
                         // +1 for the separator
                         .map(|line| line.len() + 1)
                         .sum::<usize>()
@@ -393,10 +393,11 @@ impl CursorTracker for CursorTrackerImpl<'_> {
                     col,
                     newlines_after_cursor,
                 } => {
-                    let mut lines_back = newlines_after_cursor.min(fmt.newlines_before);
+                    let newlines_before = u32::from(fmt.newlines_before);
+                    let mut lines_back = newlines_after_cursor.min(newlines_before);
                     if lines_back > 0 {
                         // The cursor was on a blank line. Keep it there at column 0.
-                        if fmt.newlines_before <= newlines_after_cursor && fmt.newlines_before > 1 {
+                        if newlines_before <= newlines_after_cursor && newlines_before > 1 {
                             // the line that the cursor was on is no longer there, move it to the next line
                             lines_back -= 1;
                         }
@@ -404,7 +405,7 @@ impl CursorTracker for CursorTrackerImpl<'_> {
                         (new_token_offset
                             + self.reconstructor.leading_newlines_len(
                                 token,
-                                fmt.newlines_before.saturating_sub(lines_back) as usize,
+                                newlines_before.saturating_sub(lines_back) as usize,
                             )
                             - self.reconstructor.ws_len(token)) as u32
                     } else {
